@@ -613,9 +613,17 @@ def run_haplotag(
                 read_to_haplotype = None
 
             assert not include_unmapped or len(regions) == 1
+            previous_region_end = None
             for start, end in regions:
                 logger.debug("Working on %s:%s-%s", chrom, start, end)
                 for alignment in bam_reader.fetch(contig=chrom, start=start, stop=end):
+                    if (
+                        previous_region_end is not None
+                        and alignment.reference_start < previous_region_end
+                    ):
+                        # The alignment also overlaps the previous region of this chromosome
+                        # and has been written already
+                        continue
                     n_alignments += 1
                     haplotype_name = "none"
                     phaseset = "none"
@@ -661,6 +669,7 @@ def run_haplotag(
 
                     if n_alignments % 100_000 == 0:
                         logger.debug(f"Processed {n_alignments} alignment records.")
+                previous_region_end = end
         if include_unmapped:
             logger.debug("Copying unmapped reads to output")
             for alignment in bam_reader.fetch(contig="*"):
